@@ -32,7 +32,7 @@ struct ShadowHost : ModelHost {
 	World::Cand *cur = nullptr;
 	void expect(int c, const Exp &e) override {
 		if (cur && e.kind == Exp::RESP && (e.id.t == JV::Str || e.id.t == JV::Num) && (e.why == "authenticate ok" || e.why == "failed authentication")) {
-			char b[48]; if (e.id.t == JV::Num) snprintf(b, sizeof b, "n%.15g", e.id.d);
+			char b[48]; if (e.id.t == JV::Num) snprintf(b, sizeof b, "n%.17g", e.id.d);
 			cur->auth[std::to_string(c) + "|" + (e.id.t == JV::Str ? "s" + e.id.s : std::string(b))] = e.why == "authenticate ok" ? 1 : 0;
 		}
 		if (!cur || e.kind != Exp::NOTIFY) return;
@@ -50,7 +50,7 @@ ShadowHost g_shadow_host;
 
 std::string idkey2(const JV &id) {
 	if (id.t == JV::Str) return "s" + id.s;
-	char b[40]; snprintf(b, sizeof b, "n%.15g", id.d); return b;
+	char b[40]; snprintf(b, sizeof b, "n%.17g", id.d); return b;
 }
 
 bool get_set_equal2(const JV &a, const JV &b) {
